@@ -172,16 +172,56 @@ _CMP = {"==": lambda a, b: a == b, "!=": lambda a, b: a != b, "<": lambda a, b: 
         "<=": lambda a, b: a <= b, ">=": lambda a, b: a >= b}
 
 
+class _NonZero:
+    """some value other than 0 (a failure code that is only known to be one)"""
+
+    def __repr__(self):
+        return "NZ"
+
+
+NZ = _NonZero()
+
+
 def _ceval(n, env, retvar=None, c=None):
     """constant value of a pure expression over the result variable (None: not a constant / not pure)"""
+    v = _ceval0(n, env, retvar, c)
+    return v
+
+
+def _ceval0(n, env, retvar=None, c=None):
     if not isinstance(n, dict):
         return None
     k = n.get("k")
+    if c is NZ:
+        # only zero-ness tests of the result are decided
+        if k == "ref":
+            return env.get(n.get("id"))
+        if k == "var":
+            if ("var", n.get("n")) in env:
+                return env[("var", n.get("n"))]
+            return NZ if retvar is not None and n.get("n") == retvar else None
+        if k == "int":
+            return n.get("v")
+        if k in ("cast", "paren") and len(n.get("a") or []) == 1:
+            return _ceval0(n["a"][0], env, retvar, c)
+        if k == "un" and n.get("op") == "!":
+            v = _ceval0(n["a"][0], env, retvar, c)
+            return 0 if v is NZ else (None if v is None else int(not v))
+        if k == "bin" and n.get("op") in ("==", "!="):
+            a, b = _ceval0(n["a"][0], env, retvar, c), _ceval0(n["a"][1], env, retvar, c)
+            if (a is NZ and b == 0) or (b is NZ and a == 0):
+                return int(n["op"] == "!=")
+            if a is NZ or b is NZ or a is None or b is None:
+                return None
+            return int((a == b) == (n["op"] == "=="))
+        return None
     if k == "ref":
         return env.get(n.get("id"))
     if k == "int":
         return n.get("v")
     if k == "var":
+        if ("var", n.get("n")) in env:
+            return env[("var", n.get("n"))]
         return c if retvar is not None and n.get("n") == retvar else None
     if k in ("cast", "paren") and len(n.get("a") or []) == 1:
         return _ceval(n["a"][0], env, retvar, c)
@@ -211,6 +251,53 @@ def _returned_const(gb, x):
     return _ceval(x["a"][0], env) if x.get("a") else None
 
 
+def _returned_nonzero(g, gb, x):
+    """`return v` in a block that is entered only through the true arm of `if (v)` / `if (v != 0)` (the false arm of
+    `!v` / `v == 0`): the value handed back is some non-zero failure code"""
+    a0 = x["a"][0] if x.get("a") else None
+    if not isinstance(a0, dict):
+        return False
+    byid = {}
+    for y in gb["elems"]:
+        if isinstance(y.get("id"), int):
+            byid[y["id"]] = y
+    if a0.get("k") == "ref":
+        a0 = byid.get(a0.get("id"))
+    while isinstance(a0, dict) and a0.get("k") in ("cast", "paren") and a0.get("a"):
+        a0 = a0["a"][0]
+        if isinstance(a0, dict) and a0.get("k") == "ref":
+            a0 = byid.get(a0.get("id"))
+    if not isinstance(a0, dict) or a0.get("k") != "var":
+        return False
+    name = a0["n"]
+    # no assignment of the variable inside the returning block before the return
+    for y in gb["elems"]:
+        for n in _walk(y):
+            if n.get("k") == "bin" and n.get("op", "").endswith("=") and n.get("op") not in ("==", "!=", "<=", ">=") and isinstance(n["a"][0], dict) and n["a"][0].get("n") == name:
+                return False
+    preds = [(b, i) for b in g["blocks"] for i, s_ in enumerate(b.get("succ") or []) if s_ == gb["id"]]
+    if not preds:
+        return False
+    for b, i in preds:
+        if b.get("term") != "if" or b.get("cond") is None or len(b.get("succ") or []) != 2:
+            return False
+        env = {}
+        ok = True
+        for y in b["elems"]:
+            v = _ceval0(y, env, name, NZ)
+            if isinstance(y.get("id"), int) and v is not None:
+                env[y["id"]] = v
+        v = _ceval0(b["cond"], env, name, NZ)
+        # with the variable non-zero the condition must send control here, and with it zero it must not: the condition
+        # is a pure zero-ness test of the variable
+        if v is None:
+            return False
+        takes_true = (v is NZ) or bool(v)
+        if (i == 0) != takes_true:
+            return False
+    return True
+
+
 def _threaded_target(cont, retvar, c):
     """jump threading: when the call's value is used only to decide the branch that ends its block (`if (helper(..))`,
     `if (!helper(..))`, `if (helper(..) != AWS_OP_SUCCESS)`) and the helper returns the constant c here, the successor
@@ -219,14 +306,40 @@ def _threaded_target(cont, retvar, c):
         return None
     env = {}
     for x in cont["elems"]:
+        if not isinstance(x.get("id"), int):
+            return None
+        if x.get("k") in ("bin", "decl"):
+            # `rv = helper(..)` / `int rv = helper(..)`: a copy of the result into a local that the test then reads
+            tgt, rhs = None, None
+            if x["k"] == "bin" and x.get("op") == "=" and isinstance(x["a"][0], dict) and x["a"][0].get("k") in ("var", "ref"):
+                l_ = x["a"][0]
+                if l_.get("k") == "ref":
+                    l_ = next((y for y in cont["elems"] if y.get("id") == l_.get("id")), None)
+                if isinstance(l_, dict) and l_.get("k") == "var" and l_.get("sc") == "local":
+                    tgt, rhs = l_["n"], x["a"][1]
+            elif x["k"] == "decl" and len(x.get("vars", [])) == 1 and x["vars"][0].get("init") is not None:
+                tgt, rhs = x["vars"][0]["n"], x["vars"][0]["init"]
+            if tgt is not None:
+                v = _ceval(rhs, env, retvar, c)
+                if v is None:
+                    return None
+                env[("var", tgt)] = v
+                env[x["id"]] = v
+                continue
+        if x.get("k") == "var" and ("var", x.get("n")) in env:
+            env[x["id"]] = env[("var", x["n"])]
+            continue
+        if x.get("k") == "var" and x.get("n") != retvar:
+            env[x["id"]] = None  # an lvalue about to be assigned, or an unrelated read
+            continue
         v = _ceval(x, env, retvar, c)
-        if v is None or not isinstance(x.get("id"), int):
+        if v is None:
             return None
         env[x["id"]] = v
     v = _ceval(cont["cond"], env, retvar, c)
     if v is None:
         return None
-    return cont["succ"][0 if v else 1]
+    return cont["succ"][0 if (v is NZ or v) else 1]
 
 
 def flatten_function(fj, by_name, helpers, types, depth=0, counter=None):
@@ -324,6 +437,7 @@ def flatten_function(fj, by_name, helpers, types, depth=0, counter=None):
             b["succ"] = [g["entry"]]
             # the callee's returns
             still_to_cont = False
+            extra_blocks = []
             for gb in g["blocks"]:
                 new_elems = []
                 target = cont["id"]
@@ -331,10 +445,31 @@ def flatten_function(fj, by_name, helpers, types, depth=0, counter=None):
                     if x.get("k") == "ret":
                         if has_val and x.get("a"):
                             cv = _returned_const(gb, x)
+                            if cv is None and _returned_nonzero(g, gb, x):
+                                cv = NZ
                             if cv is not None:
                                 t = _threaded_target(cont, retvar, cv)
                                 if t is not None:
-                                    target = t
+                                    pure = all(y.get("k") not in ("bin", "decl") or (y.get("k") == "bin" and y.get("op") in _CMP) for y in cont["elems"])
+                                    if pure:
+                                        target = t
+                                    else:
+                                        # the continuation also stores the result somewhere: run a private copy of
+                                        # its statements, then go where its test leads
+                                        cp = copy.deepcopy(cont["elems"])
+                                        idmap = {}
+                                        for y in cp:
+                                            for n_ in _walk(y):
+                                                if n_.get("k") != "ref" and isinstance(n_.get("id"), int):
+                                                    idmap[n_["id"]] = fresh()
+                                        for y in cp:
+                                            for n_ in _walk(y):
+                                                if isinstance(n_.get("id"), int) and n_["id"] in idmap:
+                                                    n_["id"] = idmap[n_["id"]]
+                                                n_.pop("was", None)
+                                        tb = {"id": None, "elems": cp, "succ": [t]}
+                                        extra_blocks.append(tb)
+                                        target = ("extra", len(extra_blocks) - 1)
                             new_elems.append({"k": "bin", "id": x["id"], "t": gj0["ret"], "loc": x.get("loc", loc), "op": "=",
                                               "a": [{"k": "var", "id": fresh(), "t": gj0["ret"], "loc": x.get("loc", loc), "n": retvar, "sc": "local"}, x["a"][0]]})
                         elif x.get("a"):
@@ -345,7 +480,12 @@ def flatten_function(fj, by_name, helpers, types, depth=0, counter=None):
                 if any(s == g["exit"] for s in gb["succ"]) and not gb.get("noreturn") and target == cont["id"]:
                     still_to_cont = True
                 gb["succ"] = [(cur["exit"] if gb.get("noreturn") else target) if s == g["exit"] else s for s in gb["succ"]]
-            cur["blocks"] = [x for x in cur["blocks"]] + [gb for gb in g["blocks"] if gb["id"] != g["exit"]] + ([cont] if still_to_cont or not has_val else [])
+            nxt_id = max(cont["id"], max(x["id"] for x in g["blocks"])) + 1
+            for i_, tb in enumerate(extra_blocks):
+                tb["id"] = nxt_id + i_
+            for gb in g["blocks"]:
+                gb["succ"] = [extra_blocks[s[1]]["id"] if isinstance(s, tuple) else s for s in gb["succ"]]
+            cur["blocks"] = [x for x in cur["blocks"]] + [gb for gb in g["blocks"] if gb["id"] != g["exit"]] + ([cont] if still_to_cont or not has_val else []) + extra_blocks
             changed = True
             break
     if out is not None:
